@@ -49,9 +49,124 @@ def bounds(tier, seed):
                 min_counts=[None] if tier == "quick" else [None, 1])
 
 
+GEOM_FUNCS = ["sum", "nanmax", "count", "argmax", "nanmean", "first", "nanvar", "quantile-vector", "nanmedian", "any"]
+
+
 def shards(tier, seed):
     b = bounds(tier, seed)
-    return [dict(dtype=dt, func=f, tier=tier) for dt in DTYPES for f in b["funcs"]]
+    out = [dict(dtype=dt, func=f, tier=tier) for dt in DTYPES for f in b["funcs"]]
+    # geometry: n-D labels, every axis subset, chunk grids over batch and label axes, one or two groupers
+    for f in GEOM_FUNCS:
+        for groupers in (1, 2):
+            out.append(dict(leg="geom", func=f, groupers=groupers, tier=tier))
+    return out
+
+
+def truth_problems(res, result, want_dtype=None):
+    """(iii): what a lazy result announces (dtype, shape, chunks, meta type) against the computed array and every computed block."""
+    announced = (np.dtype(result.dtype), tuple(result.shape))
+    with np.errstate(all="ignore"):
+        full = result.compute(scheduler="sync")
+    res.transitions += 1
+    probs = []
+    if np.dtype(full.dtype) != announced[0]:
+        probs.append(f"announced dtype {announced[0]} but computed {full.dtype}")
+    if tuple(full.shape) != announced[1]:
+        probs.append(f"announced shape {announced[1]} but computed {full.shape}")
+    if type(result._meta) is not type(full):
+        probs.append(f"announced array type {type(result._meta).__name__} but computed {type(full).__name__}")
+    if np.dtype(result._meta.dtype) != announced[0] or result._meta.ndim != len(announced[1]):
+        probs.append(f"meta is {result._meta.dtype}/{result._meta.ndim}-d but the array announces {announced[0]}/{len(announced[1])}-d")
+    if any(c != c for dim in result.chunks for c in dim):
+        probs.append(f"unknown chunk sizes announced: {result.chunks}")
+    elif tuple(sum(c) for c in result.chunks) != announced[1]:
+        probs.append(f"chunks {result.chunks} do not add up to the announced shape {announced[1]}")
+    else:
+        for idx in itertools.product(*[range(n) for n in result.numblocks]):
+            blk = result.blocks[idx].compute(scheduler="sync")
+            want = tuple(result.chunks[d][i] for d, i in enumerate(idx))
+            res.transitions += 1
+            if tuple(blk.shape) != want or np.dtype(blk.dtype) != announced[0]:
+                probs.append(f"block {idx}: announced {want}/{announced[0]} but computed {tuple(blk.shape)}/{blk.dtype}")
+                break
+    return probs, full
+
+
+def run_geom(res, func, groupers, tier):
+    """Shape / chunk truthfulness and plan independence beyond one label axis."""
+    import dask.array as da
+
+    lab = np.array([[0.0, 1.0, 0.0], [2.0, 1.0, NAN]])
+    lab2 = np.array([[10, 10, 20], [20, 10, 10]])
+    V = np.arange(12, dtype=float).reshape(2, 2, 3) - 4
+    V[1, 0, 1] = NAN
+    if func == "any":
+        V = V > 0
+    kwf = dict(func=func)
+    if func == "quantile-vector":
+        kwf = dict(func="quantile", finalize_kwargs=dict(q=[0.25, 0.5, 0.75]))
+    axes = [None, (-1,), (-2,), (-2, -1), (-1, -2), (1, 2), (2,)]
+    grids = [((2,), (2,), (3,)), ((1, 1), (2,), (3,)), ((2,), (1, 1), (3,)), ((2,), (2,), (2, 1)), ((1, 1), (1, 1), (1, 1, 1)), ((2,), (1, 1), (2, 1))]
+    if tier == "quick":
+        grids = grids[:1] + grids[2:]
+    for axis, expected in itertools.product(axes, (False, True)):
+        kw = dict(kwf)
+        if axis is not None:
+            kw["axis"] = axis
+        by = (lab,) if groupers == 1 else (lab, lab2)
+        if expected:
+            kw["expected_groups"] = np.array([0.0, 1.0, 2.0, 3.0]) if groupers == 1 else (np.array([0.0, 1.0, 2.0, 3.0]), np.array([10, 20]))
+            kw["fill_value"] = 0 if func != "any" else False
+        elif groupers == 2 or (axis is not None and len(axis) == 1):
+            kw["fill_value"] = 0 if func != "any" else False  # a label may be absent from a slice
+        ref = e1.call_reduce(V, *by, **kw)
+        res.evaluations += 1
+        res.transitions += 1
+        cell = dict(leg="geom", func=func, groupers=groupers, axis=list(axis) if axis else None, expected=expected)
+        if ref.kind != "ok":
+            res.outcomes[f"eager-{ref.kind}:{ref.exc}"] += 1
+        ref_sig = (str(np.asarray(ref.result).dtype), tuple(np.asarray(ref.result).shape)) if ref.kind == "ok" else None
+        for grid, method, engine, ldask in itertools.product(grids, ("map-reduce", "cohorts", "blockwise", None), ("numpy", "flox"), (False, True)):
+            if ldask and (not expected or engine == "flox"):
+                continue
+            if engine == "flox" and method not in ("map-reduce", None):
+                continue
+            case = dict(cell, grid=[list(g) for g in grid], method=method, engine=engine, labels_dask=ldask)
+            tags = dict(leg2="geom", func=func, groupers=groupers, method=str(method), engine=engine, naxes=len(axis) if axis else 2, expected=expected, labels_dask=ldask)
+            arr = da.from_array(V, chunks=grid)
+            byd = tuple(da.from_array(b, chunks=grid[1:]) for b in by) if ldask else by
+            out = e1.call_reduce(arr, *byd, compute=False, method=method, engine=engine, **kw)
+            res.evaluations += 1
+            res.states += 1
+            res.transitions += 1
+            if out.kind != "ok":
+                res.outcomes[f"{out.kind}:{out.exc}"] += 1
+                continue
+            result = out.result
+            if not hasattr(result, "compute"):
+                res.outcomes["eager-object"] += 1
+                continue
+            try:
+                probs, full = truth_problems(res, result)
+            except e1.REFUSALS:
+                res.outcomes["refused-at-compute"] += 1
+                continue
+            except Exception as e:
+                res.outcomes[f"error-at-compute:{type(e).__name__}"] += 1
+                continue
+            res.compared += 1
+            sig = (str(np.dtype(full.dtype)), tuple(full.shape))
+            if ref_sig is not None and sig != ref_sig:
+                probs.append(f"eager result is {ref_sig[0]}{list(ref_sig[1])} but this plan gives {sig[0]}{list(sig[1])}")
+            # batch chunks are preserved, reduced label axes disappear, the group axis is ONE chunk per grouper
+            if probs:
+                res.outcomes["untruthful"] += 1
+                res.violate("metadata-untruthful", case, dict(problems=probs), "announced == computed == eager geometry", tags=dict(tags, kind="truth"), size=20 + sum(len(g) for g in grid))
+                continue
+            res.nontrivial += 1
+            res.outcomes["ok"] += 1
+    res.sample(dict(leg="geom", func=func, groupers=groupers, array_shape=[2, 2, 3], label_shape=[2, 3], axes=[str(a) for a in axes], grids=len(grids)))
+    return res
 
 
 def rule(func, in_dtype, user_dtype, fill):
@@ -193,6 +308,8 @@ def run_cell(res, in_dtype, func, user_dtype, fillname, min_count, engine, metho
 def run_shard(shard):
     e1.reset_flox_caches()
     res = Result()
+    if shard.get("leg") == "geom":
+        return run_geom(res, shard["func"], shard["groupers"], shard["tier"])
     in_dtype, func, tier = shard["dtype"], shard["func"], shard["tier"]
     b = bounds(tier, 0)
     if func in BOOLS and in_dtype != "bool":
@@ -222,6 +339,8 @@ def res_with_sample(res, shard):
 def replay(payload):
     res = Result()
     c = payload["case"]
+    if c.get("leg") == "geom":
+        return run_geom(res, c["func"], c["groupers"], "thorough")
     if "engine" in c:
         run_cell(res, c["dtype"], c["func"], c["user_dtype"], c["fill"], c["min_count"], c["engine"], c["method"], tuple(c["chunks"]) if c.get("chunks") else None, {})
         return res
